@@ -32,6 +32,9 @@ def shards(tier, seed):
     out = []
     for ln, nn in A.combos(lints1=True):
         out.append({"kind": "single", "ln": ln, "nn": nn, "tier": tier, "seed": 61 + seed})
+    for metric in ("seuclidean", "mahalanobis"):      # distances that depend on which rows are passed to scipy together
+        out.append({"kind": "metric", "np": "rad", "metric": metric, "tier": tier, "seed": 61 + seed})
+        out.append({"kind": "metric", "np": "knn", "metric": metric, "tier": tier, "seed": 61 + seed})
     metrics = ["euclidean", "chebyshev", "cityblock"]
     for kind in ("rad", "knn"):
         for m1 in metrics:
@@ -94,6 +97,12 @@ def run_shard(shard):
         cfgs = [A.config(shard["ln"], shard["nn"], seed=shard["seed"])]
         lns = [shard["ln"]]
         grid = simrun.GRID
+    elif shard["kind"] == "metric":
+        npol = ["Radius", {"radius": 1.5, "metric": shard["metric"]}] if shard["np"] == "rad" else \
+            ["KNearest", {"k": 2, "metric": shard["metric"]}]
+        cfgs = [A.config("eg0", npol, seed=shard["seed"]), A.config("ucb", npol, seed=shard["seed"] + 1)]
+        lns = ["eg0", "ucb"]
+        grid = simrun.FGRID
     else:
         k = shard["np"]
         mk = (lambda m: ["Radius", {"radius": 3.0, "metric": m}]) if k == "rad" else (lambda m: ["KNearest", {"k": 2, "metric": m}])
@@ -101,6 +110,8 @@ def run_shard(shard):
         lns = ["eg0", "ucb"]
         grid = simrun.MGRID
     rows = ([6, 8] if tier == "quick" else [6, 8, 10])
+    if shard["kind"] == "metric":
+        rows = [10, 12]                  # enough rows for a non-singular covariance in every training part
     for n in rows:
         for pattern in ("alt", "blocks", "late2"):
             if tier == "quick" and n == 8 and pattern == "blocks":
